@@ -589,6 +589,57 @@ def anchored(ctx, col):
         elif unpack:
             col.ok("R-COUNTER", conv.qualname, conv.loc(n), "the parent id pushed for the children is re-bound after the frame is popped",
                    f"{len(rebind)} re-binding(s) of `{nm}`", stmt="childpid-defuse")
+    # order parity of the explicit stack: frames popped from the END of a list come out in the reverse of the order they were pushed in, so children (kept in
+    # document order) must be pushed through exactly one reversal; a FIFO (pop(0) / popleft) needs none
+    col.rule("R-LIFO", "document order on the explicit stack: children are pushed onto a last-in-first-out list in reversed order (odd number of reversals), or onto a first-in-first-out "
+             "queue in document order -- pushing several siblings forward onto a LIFO visits them last-first", floor=1)
+    pops = [c for c in own_nodes(conv) if isinstance(c, ast.Call) and isinstance(c.func, ast.Attribute) and c.func.attr in ("pop", "popleft") and isinstance(c.func.value, ast.Name)]
+    stacks = {}
+    for c in pops:
+        lifo = c.func.attr == "pop" and (not c.args or norm_src(c.args[0]) == "-1")
+        stacks[c.func.value.id] = lifo
+    n_push = 0
+    for c in own_nodes(conv):
+        if isinstance(c, ast.Call) and isinstance(c.func, ast.Attribute) and c.func.attr in ("extend", "extendleft") and isinstance(c.func.value, ast.Name) and c.func.value.id in stacks and c.args:
+            arg = c.args[0]
+            src = arg.generators[0].iter if isinstance(arg, (ast.GeneratorExp, ast.ListComp)) and len(arg.generators) == 1 else arg
+            revs = 0
+            cur = src
+            while True:
+                if isinstance(cur, ast.Call) and (dotted(cur.func) or "") == "reversed" and cur.args:
+                    revs += 1
+                    cur = cur.args[0]
+                elif isinstance(cur, ast.Subscript) and isinstance(cur.slice, ast.Slice) and cur.slice.step is not None and norm_src(cur.slice.step) == "-1":
+                    revs += 1
+                    cur = cur.value
+                elif isinstance(cur, ast.Call) and isinstance(cur.func, ast.Name) and cur.func.id in ("list", "tuple") and len(cur.args) == 1:
+                    cur = cur.args[0]   # a copy keeps the order
+                elif isinstance(cur, ast.Name):
+                    bs = [a.value for a in own_nodes(conv) if isinstance(a, ast.Assign) and len(a.targets) == 1 and isinstance(a.targets[0], ast.Name) and a.targets[0].id == cur.id]
+                    # head, *rest = children : the rest keeps the order of the sequence
+                    bs += [a.value for a in own_nodes(conv) if isinstance(a, ast.Assign) and len(a.targets) == 1 and isinstance(a.targets[0], (ast.Tuple, ast.List))
+                           and any(isinstance(t_, ast.Starred) and isinstance(t_.value, ast.Name) and t_.value.id == cur.id for t_ in a.targets[0].elts)]
+                    if len(bs) == 1:
+                        cur = bs[0]
+                    else:
+                        break
+                elif isinstance(cur, ast.Subscript) and isinstance(cur.slice, ast.Slice) and cur.slice.step is None:
+                    cur = cur.value   # children[1:] keeps the order
+                else:
+                    break
+            if "children" not in norm_src(cur):
+                continue
+            n_push += 1
+            lifo = stacks[c.func.value.id]
+            if c.func.attr == "extendleft":
+                revs += 1
+            ok_ = (revs % 2 == 1) if lifo else (revs % 2 == 0)
+            col.check(ok_, "R-LIFO", conv.qualname, conv.loc(c), "siblings come off the stack in document order", f"{'LIFO' if lifo else 'FIFO'}, {revs} reversal(s)",
+                      f"`{norm_src(c)[:80]}` pushes the siblings {'in document order' if revs % 2 == 0 else 'reversed'} onto a {'last-in-first-out list' if lifo else 'first-in-first-out queue'}: "
+                      f"with two or more of them (a split with three alternatives, a branch point that also carries a comment) they are converted last-first, so nodes and ids leave document order",
+                      stmt="lifo", definite=True)
+    if not n_push:
+        col.unresolved("R-LIFO", conv.qualname, conv.loc(), "siblings come off the stack in document order", "no push of a node's children onto the explicit stack recognised", stmt="lifo")
     col.text_group("R-ORDER", conv.qualname, conv, [
         ("children are pushed in reverse so that the first child is popped first (document order)",
          ["stack.extend(((n, pid, typee) for n in reversed(root.children)))"], "order"),
